@@ -916,13 +916,18 @@ class Cache(object):
         """
         if not self.cache_enabled():
             return False
+        # Only the part of the cache up to the address's last fully updated block is known to be complete
+        db_addr = self.getaddress(address)
+        if not db_addr or not db_addr.last_block:
+            return []
         db_utxos = self.session.query(DbCacheTransactionNode.spent, DbCacheTransactionNode.index_n,
                                       DbCacheTransactionNode.value, DbCacheTransaction.confirmations,
                                       DbCacheTransaction.block_height, DbCacheTransaction.fee,
                                       DbCacheTransaction.date, DbCacheTransaction.txid).join(DbCacheTransaction). \
             order_by(DbCacheTransaction.block_height, DbCacheTransaction.index). \
             filter(DbCacheTransactionNode.address == address, DbCacheTransactionNode.is_input == False,
-                   DbCacheTransaction.network_name == self.network.name).all()
+                   DbCacheTransaction.network_name == self.network.name,
+                   DbCacheTransaction.block_height <= db_addr.last_block).all()
         utxos = []
         for db_utxo in db_utxos:
             if db_utxo.spent is False:
